@@ -23,12 +23,14 @@ def instances(tier):
         lb = lenbits(m)
         out.append((T, 'VH_C05_loadLabel_vs_spec', [m, 2, 3 + lb], {'weight': m}))
         out.append((T, 'VH_C05_loadLabel_vs_spec', [m, 1, 2 + lb + 3], {'weight': 10}))
+    for cp in ([0, 3, 7] if tier == 'quick' else list(range(0, 8))):
+        out.append((T, 'VH_C05_dict_int8', [cp], {'weight': 400}))
     return out
 
 
 CHECK = dict(
-    id='C05', pkgs=['tlb'], init_pkgs=['std:io', 'boc'], instances=instances, opts={'budget_s': 1500, 'unwind': 1100},
-    level_text='Label codec of Hashmap edges: loadLabel/loadLabelSize are executed on ARBITRARY cell bits and compared with a specification parser of HmLabel (short, long, same) on (length, bits, bits consumed, rejection); encodeLabel+loadLabel round trip for every pair of keys of the stated widths including the 7/8-bit short/long boundary.',
+    id='C05', pkgs=['tlb'], init_pkgs=['std:io', 'boc', 'tlb'], instances=instances, opts={'budget_s': 2400, 'unwind': 1100, 'hash_injective': True},
+    level_text='Label codec of Hashmap edges: loadLabel/loadLabelSize are executed on ARBITRARY cell bits and compared with a specification parser of HmLabel (short, long, same) on (length, bits, bits consumed, rejection); encodeLabel+loadLabel round trip for every pair of keys of the stated widths including the 7/8-bit short/long boundary; dictionary round trip HashmapE[Int8,Uint8] with two symbolic keys of any signs through Put (both insertion orders), Marshal, Unmarshal: same pairs, ascending key-bit order, Get agrees, identical cell for both insertion orders.',
     level_note='Bounds: remaining key size m in evidence.bounds, every cell length up to the longest valid label + 2; wide keys only for the same-bit form. Dictionary-level round trip (Put/Marshal/Unmarshal) needs the reflection codec: see DESIGN for status.',
     bounds={'quick': {'m': [1, 2, 3, 7, 8, 9, 15, 16], 'wide m (same form)': [65, 72]}, 'thorough': {'m': '1..32', 'wide m': [64, 65, 72, 80, 96, 128]}},
     outside_claim=['N > 4 entries', 'HashmapAug* encoders', '512-bit keys except the same-bit label form'],
